@@ -372,6 +372,18 @@ impl Durable {
         if let Some(c) = r {
             return Some(c);
         }
+        // Dangling durable state: entries made durable (or a directory whose
+        // own creation may have become durable) inside a directory the walk
+        // from the root never reached, because an ancestor is not durable.
+        // The property asserts nothing about such subtrees ("leaves dangling
+        // subtrees unspecified"), and that includes what they turn into when an
+        // object is later created under the same name in a new generation
+        // (the implementation keeps them and they reattach). This crash was
+        // judged on everything reachable; nothing after it is asserted.
+        if self.dents.iter().any(|(d, ents)| !visited.contains(d) && !ents.is_empty()) {
+            st.undetermined += 1;
+            st.stop = true;
+        }
         self.v = new_tree;
         self.dents = new_dents;
         self.files = new_files;
